@@ -237,42 +237,76 @@ def op_model_replay(case):
             sets = {EventSet([t for t, c in b for _ in range(c)]) for b in bags}
             tree_cache[key] = _canon_tree(calculate_logic_gates(sets)) if sets else None
         return tree_cache[key]
-    obs_all = []
     fd, path = tempfile.mkstemp(prefix="verif-model-", suffix=".json", dir="/dev/shm" if os.path.isdir("/dev/shm") else None)
     os.close(fd)
+    # the histories form a tree: every distinct prefix is executed once, on a deep copy of its parent's state
+    trie = {}
+    for hist in case["hists"]:
+        node = trie
+        for kind, arg in hist:
+            node = node.setdefault((kind, arg), {})
+    obs_by_prefix = {}
+
+    def step(prefix, node, events, file_text, n):
+        for (kind, arg), child in node.items():
+            ev = deepcopy(events)
+            ft, nn = file_text, n
+            try:
+                if kind == "ingest":
+                    nn += 1
+                    ev = update_and_create_events_from_clustered_pvevents([pv_job(jobs[arg - 1], nn)],
+                                                                          add_dummy_start=True, events=ev)
+                elif kind == "read":
+                    ev[arg].logic_gate_tree  # noqa: B018
+                elif kind == "save":
+                    save_events_to_file("m", ev, path)
+                    with open(path) as fh:
+                        ft = fh.read()
+                elif kind == "load":
+                    with open(path, "w") as fh:
+                        fh.write(ft)
+                    _name, ev = load_events_from_file(path)
+                proj = _project_events(ev)
+                for t, rec in proj.items():
+                    # what reading the tree now returns (read on a deep copy: the walk reads copies too)
+                    rec["tree"] = _canon_tree(deepcopy(ev[t]).logic_gate_tree)
+                    rec["tree_of"] = {repr(rec["out"]): tree_of_bags(rec["out"])}
+                ob = {"types": proj}
+            except Exception as e:  # noqa: BLE001
+                ob = {"error": "%s: %s" % (type(e).__name__, str(e)[:200])}
+            key = prefix + [[kind, arg]]
+            obs_by_prefix[json.dumps(key)] = ob
+            if "error" not in ob:
+                step(key, child, ev, ft, nn)
+    import json
     try:
-        for hist in case["hists"]:
-            events = {}
-            last_tree = {}
-            n = 0
-            obs = []
-            if os.path.exists(path):
-                os.remove(path)
-            for kind, arg in hist:
-                try:
-                    if kind == "ingest":
-                        n += 1
-                        events = update_and_create_events_from_clustered_pvevents([pv_job(jobs[arg - 1], n)],
-                                                                                  add_dummy_start=True, events=events)
-                    elif kind == "read":
-                        last_tree[arg] = _canon_tree(events[arg].logic_gate_tree)
-                    elif kind == "save":
-                        save_events_to_file("m", events, path)
-                    elif kind == "load":
-                        _name, events = load_events_from_file(path)
-                        last_tree = {}
-                    proj = _project_events(events)
-                    for t, rec in proj.items():
-                        # what reading the tree now returns (read on a deep copy: the walk reads copies too)
-                        tr = _canon_tree(deepcopy(events[t]).logic_gate_tree)
-                        rec["tree"] = tr
-                        cands = {}
-                        rec["tree_of"] = {repr(rec["out"]): tree_of_bags(rec["out"])}
-                    obs.append({"types": proj})
-                except Exception as e:  # noqa: BLE001
-                    obs.append({"error": "%s: %s" % (type(e).__name__, str(e)[:200])})
-            obs_all.append(obs)
+        step([], trie, {}, None, 0)
     finally:
         if os.path.exists(path):
             os.remove(path)
-    return {"obs": obs_all}
+    return {"obs": obs_by_prefix}
+
+
+def _gate_tree(t):
+    """pm4py tree -> nested tuple for spec/Gates.tla"""
+    if t is None:
+        return ("bad", [])
+    if t.operator is None:
+        return ("leaf", str(t.label)) if t.label is not None else ("bad", [])
+    op = {"X": "xor", "+": "and", "O": "or"}.get(getattr(t.operator, "value", str(t.operator)), "bad")
+    return (op, [_gate_tree(c) for c in t.children])
+
+
+@register("gates")
+def op_gates(case):
+    from tel2puml.events import EventSet
+    from tel2puml.logic_detection import calculate_logic_gates
+    seed_uuid(case.get("uuid_seed", 0))
+    outs = []
+    for fam in case["families"]:
+        try:
+            t = calculate_logic_gates({EventSet(list(s)) for s in fam})
+            outs.append({"tree": _gate_tree(t)})
+        except Exception as e:  # noqa: BLE001
+            outs.append({"error": "%s: %s" % (type(e).__name__, str(e)[:200])})
+    return {"outs": outs}
